@@ -168,14 +168,15 @@ def _linearity_case(arg):
 
 
 def _ivp_case(arg):
-    alpha, seed = arg
+    alpha, seed = arg[0], arg[1]
+    r_start = arg[2] if len(arg) > 2 else 1000.0
     from grid.atomgrid import AtomGrid
     from grid.onedgrid import Trapezoidal
     from grid.poisson import solve_poisson_ivp
     from grid.rtransform import InverseRTransform, LinearFiniteRTransform
 
     res = WorkerResult(section="ivp")
-    case = {"route": "ivp", "alpha": alpha}
+    case = {"route": "ivp", "alpha": alpha, "r_start": r_start}
     with warnings.catch_warnings():
         warnings.simplefilter("ignore")
         btf = LinearFiniteRTransform(1e-3, 1000.0)
@@ -183,12 +184,14 @@ def _ivp_case(arg):
         g = AtomGrid(rg, degrees=[5], center=CENTRE)
     rho = rho_gauss(g.points, CENTRE, alpha)
     q = eval_points(seed)
+    q = q[np.linalg.norm(q - CENTRE, axis=1) < 0.5 * r_start]
     res.count()
     try:
         with warnings.catch_warnings():
             warnings.simplefilter("ignore")
             with np.errstate(all="ignore"):
-                pot = solve_poisson_ivp(g, rho, InverseRTransform(btf), r_interval=(1000.0, 1e-3))
+                # r_start < outermost radial node is legal: the asymptotic condition V = q/r is imposed there
+                pot = solve_poisson_ivp(g, rho, InverseRTransform(btf), r_interval=(r_start, 1e-3))
                 got = np.asarray(pot(q), dtype=float)
     except Exception as exc:
         res.violation(f"ivp:raised:{type(exc).__name__}", f"{case}: {exc}", case)
@@ -282,6 +285,60 @@ def _robust_case(arg):
     return res.as_dict()
 
 
+def _robust2_case(arg):
+    """Robust solver on a TWO-centre molecular grid with the second split (added after seeded change
+    C16-B was missed): the density is the fitted core models plus a few normalised Gaussians whose
+    exponents are in ``alphas_basis``; the non-negative fit removes them, the numerical residual is
+    ~0 and the result must be the analytic potential of all Gaussians."""
+    split2, dist, seed = arg
+    from grid.atomgrid import AtomGrid
+    from grid.becke import BeckeWeights
+    from grid.coulomb import load_atomic_gaussian_params
+    from grid.molgrid import MolGrid
+    from grid.onedgrid import GaussLegendre
+    from grid.rtransform import BeckeRTransform, InverseRTransform
+    from grid.robust_poisson import solve_poisson_robust
+
+    res = WorkerResult(section="robust:two-centres")
+    case = {"route": "robust2", "split2": split2, "distance": dist}
+    atnums = np.array([6, 1])
+    coords = np.array([[0.0, 0.0, -dist / 2], [0.0, 0.1, dist / 2]])
+    basis = np.array([0.5, 1.5, 4.0])
+    with warnings.catch_warnings():
+        warnings.simplefilter("ignore")
+        btf = BeckeRTransform(1e-4, 1.5)
+        rg = btf.transform_1d_grid(GaussLegendre(60))
+        mg = MolGrid(atnums, [AtomGrid(rg, degrees=[7], center=c) for c in coords], BeckeWeights(order=3), store=True)
+        terms = []
+        for z, cen in zip(atnums, coords):
+            cs, al = load_atomic_gaussian_params(int(z))
+            terms += [(c, a, cen) for c, a in zip(cs, al)]
+        extra = [(0.8, 0.5, coords[0]), (0.4, 4.0, coords[0]), (0.6, 1.5, coords[1])] if split2 else []
+        terms += extra
+        rng = np.random.default_rng([seed, 162])
+        q = np.vstack([cen + rng.normal(size=(12, 3)) * 1.2 for cen in coords])
+        dens = sum(c * rho_gauss(mg.points, cen, a) for c, a, cen in terms)
+        ref = sum(c * v_gauss(q, cen, a) for c, a, cen in terms)
+        res.count(len(q))
+        try:
+            with np.errstate(all="ignore"):
+                np.random.seed(seed)
+                pot = solve_poisson_robust(mg, dens, InverseRTransform(btf), atnums=atnums, atcoords=coords, split2=split2,
+                                           alphas_basis=basis if split2 else None)
+                got = np.asarray(pot(q), dtype=float)
+        except Exception as exc:
+            res.violation(f"robust2:raised:{type(exc).__name__}", f"{case}: {type(exc).__name__}: {exc}", case)
+            return res.as_dict()
+    res.nontrivial(n=len(q))
+    err = np.abs(got - ref)
+    if np.any(~np.isfinite(got)) or _gt(err.max(), 1e-5):
+        res.violation("robust2:two-centres:differs-from-analytic", f"{case}: robust solver on a two-centre grid deviates from the analytic "
+                      f"potential of its Gaussians by {np.nanmax(err):.2e} (exact cancellation expected, 1e-5 allowed)", case)
+    else:
+        res.maximum("robust2_err", float(err.max()))
+    return res.as_dict()
+
+
 def _mol_case(arg):
     dist, seed = arg
     from grid.atomgrid import AtomGrid
@@ -342,6 +399,9 @@ def run(ctx):
         jobs.append(("lin", (15, ctx.seed)))
     for alpha in ALPHAS:
         jobs.append(("ivp", (alpha, ctx.seed)))
+    jobs.append(("ivp", (1.0, ctx.seed, 200.0)))   # integration starts inside the radial grid
+    jobs.append(("rob2", (True, 8.0, ctx.seed)))
+    jobs.append(("rob2", (False, 8.0, ctx.seed)))
     for disp in DISPLACEMENTS:
         for alpha in ALPHAS[: 3 if ctx.thorough else 1]:
             jobs.append(("lap", (disp, alpha, ctx.seed)))
@@ -353,7 +413,7 @@ def run(ctx):
             jobs.append(("rob", ("core+smooth", z, split2, ctx.seed)))
     if ctx.thorough:
         jobs += [("mol", (10.0, ctx.seed)), ("mol", (1.4, ctx.seed))]
-    jobs.sort(key=lambda j: {"mol": 0, "bvp": 1 if j[1][0] == 15 else 3, "lin": 1, "ivp": 2, "lap": 3, "rob": 4}[j[0]])
+    jobs.sort(key=lambda j: {"mol": 0, "bvp": 1 if j[1][0] == 15 else 3, "lin": 1, "ivp": 2, "lap": 3, "rob": 4, "rob2": 2}[j[0]])
     for res in lattice.pmap_unordered(_dispatch, jobs, ctx.workers):
         if len(ctx.samples) > 8:
             res["samples"] = []
@@ -366,7 +426,7 @@ def run(ctx):
 def _dispatch(job):
     kind, arg = job
     return {"bvp": _bvp_case, "lin": _linearity_case, "ivp": _ivp_case, "lap": _laplacian_case, "rob": _robust_case,
-            "mol": _mol_case}[kind](arg)
+            "mol": _mol_case, "rob2": _robust2_case}[kind](arg)
 
 
 def replay(ctx, case):
@@ -376,7 +436,9 @@ def replay(ctx, case):
     elif r == "linearity":
         ctx.merge(_linearity_case((case["degree"], ctx.seed)))
     elif r == "ivp":
-        ctx.merge(_ivp_case((case["alpha"], ctx.seed)))
+        ctx.merge(_ivp_case((case["alpha"], ctx.seed, case.get("r_start", 1000.0))))
+    elif r == "robust2":
+        ctx.merge(_robust2_case((case["split2"], case["distance"], ctx.seed)))
     elif r == "laplacian":
         ctx.merge(_laplacian_case((case["displacement"], case["alpha"], ctx.seed)))
     elif r == "robust":
